@@ -173,17 +173,7 @@ func checkC07(cx *Ctx, r *Report) {
 				continue
 			}
 			// propagated error of InflateAndDecode / Unmarshal / Decode
-			okProp := false
-			switch x := ev.(type) {
-			case *ssa.Extract:
-				if c, isC := x.Tuple.(*ssa.Call); isC {
-					n := calleeName(c)
-					okProp = strings.HasSuffix(n, "xml.InflateAndDecode") || n == "encoding/xml.Unmarshal"
-				}
-			case *ssa.Call:
-				n := calleeName(x)
-				okProp = n == "encoding/xml.Unmarshal" || n == "(*encoding/xml.Decoder).Decode"
-			}
+			okProp := decoderErrorOK(w, ev, fn.Pkg, 0)
 			if !okProp {
 				bad = "the decoder returns an error that is not the one of InflateAndDecode / encoding/xml at " + w.InstrPos(p.Ret)
 			}
